@@ -86,6 +86,22 @@ class Spec:
         sim = StandardSimilarity(self.dc, self.ec, proportional_distance=(self.kind == "prop"))
         return sim, coords
 
+    def criterion(self, p, q) -> bool:
+        """the stated criterion evaluated independently in exact rational arithmetic"""
+        (c1, e1), (c2, e2) = p, q
+        de = abs(Fraction(float(e1)) - Fraction(float(e2)))
+        if self.kind == "abs":
+            s = sum((Fraction(float(x)) - Fraction(float(y))) ** 2 for x, y in zip(c1, c2))
+            return s < Fraction(self.dc) ** 2 and Fraction(self.dc) > 0 and de < Fraction(self.ec)
+        s = sum(((Fraction(float(x)) - Fraction(float(y))) / ((Fraction(b) - Fraction(a)) * Fraction(self.dc))) ** 2
+                for x, y, (a, b) in zip(c1, c2, self.bounds))
+        return s <= 1 and de < Fraction(self.ec)
+
+    def other_box(self, rng) -> "Spec":
+        """same criteria, same dimension, a differently shaped box (dyadic factors)"""
+        return Spec(self.kind, self.dc, self.ec,
+                    [(a * f, b * f) for (a, b), f in ((bb, rng.choice([0.25, 0.5, 2.0, 4.0, 16.0])) for bb in self.bounds)])
+
     def allowed(self) -> list[float]:
         return [(b - a) * self.dc for a, b in self.bounds]
 
@@ -165,13 +181,17 @@ class Batch:
 class Impl:
     """Drives the real classes for one stream; payloads identified bit-for-bit by a token table."""
 
-    def __init__(self, spec: Spec, batch: Batch | None, meta: dict):
+    def __init__(self, spec: Spec, batch: Batch | None, meta: dict, sim=None):
         from topsearch.data.kinetic_transition_network import KineticTransitionNetwork
         self.spec = spec
         self.batch = batch
         self.meta = dict(meta)
         self.meta["mode"] = spec.kind
         self.sim, self.coords = spec.make()
+        if sim is not None:
+            # the SAME similarity object as an earlier stream (same criteria), now used with another
+            # box: nothing about the earlier landscape may leak into this one
+            self.sim = sim
         self.ktn = KineticTransitionNetwork()
         self.tok: dict[bytes, str] = {}
         self.sent: set = set()
@@ -672,6 +692,12 @@ def correspond(ctx: Ctx) -> None:
         impl = Impl(spec, batch, {"stream": f"dy{sid}", "label": "dyadic"})
         for op in gen_stream(spec, rng, ctx.scale(25, 60)):
             apply_op(impl, op)
+        if rng.random() < 0.5:
+            spec2 = spec.other_box(rng)
+            sid += 1
+            impl2 = Impl(spec2, batch, {"stream": f"dy{sid}", "label": "dyadic-reused-similarity"}, sim=impl.sim)
+            for op in gen_stream(spec2, rng, ctx.scale(12, 30)):
+                apply_op(impl2, op)
     # (4) generic floats: decisions closer than 1e-9 (exact arithmetic) to a criterion are skipped
     for _ in range(ctx.scale(10, 60)):
         dim = rng.randrange(1, 5)
@@ -741,23 +767,29 @@ def corpus() -> list[tuple[str, Spec, list]]:
 # ----------------------------------------------------------------------------- direct predicates
 
 
-def check_stream(spec: Spec, ops: list, exact: bool, ctx: Ctx | None = None) -> tuple[str, str, dict] | None:
+def check_stream(spec: Spec, ops: list, exact: bool, ctx: Ctx | None = None, sim=None) -> tuple[str, str, dict] | None:
     """The property's own predicate on the real code, written from the statement: after every
     offer (i) a candidate matching a stored point was not stored again and the network is unchanged,
     (ii) a candidate matching none was stored, (iii) no two stored minima / transition states match,
     (iv) every minimum offered so far matches a stored one; plus symmetry / reflexivity of the
     relation on the pairs met.  With `exact=False` comparisons nearer than 1e-9 to a criterion are
     skipped."""
-    impl = Impl(spec, None, {})
+    impl = Impl(spec, None, {}, sim=sim)
     k, sim = impl.ktn, impl.sim
     offered_min: list = []
+    wrong: list = []
 
     def same(p, q) -> bool | None:
         if not exact and spec.exact_margin(p, q) < 1e-9:
             return None
         c = copy.deepcopy(impl.coords)
         c.position = np.array(p[0], dtype=float)
-        return bool(sim.test_same(c, np.array(q[0], dtype=float), float(p[1]), float(q[1])))
+        r = bool(sim.test_same(c, np.array(q[0], dtype=float), float(p[1]), float(q[1])))
+        # the relation itself against the stated criterion (skipped within 1e-9 of a threshold unless
+        # the inputs are dyadic, where binary64 is exact)
+        if (exact or spec.exact_margin(p, q) >= 1e-9) and r != spec.criterion(p, q) and not wrong:
+            wrong.append((r, _plain(p), _plain(q)))
+        return r
 
     def stored_min():
         return [(np.array(k.get_minimum_coords(i)), float(k.get_minimum_energy(i))) for i in range(k.n_minima)]
@@ -769,6 +801,11 @@ def check_stream(spec: Spec, ops: list, exact: bool, ctx: Ctx | None = None) -> 
         return impl_state_raw(k)
 
     for step, op in enumerate(ops):
+        if wrong:
+            r, pp, qq = wrong[0]
+            return ("test_same:criterion", f"test_same returned {r} for a pair that the stated "
+                    f"{'box-proportional' if spec.kind == 'prop' else 'absolute'} criterion "
+                    f"{'rejects' if r else 'accepts'}", {"step": step, "p": pp, "q": qq, "bounds": spec.bounds})
         kind = op[0]
         if kind in ("same", "isnew"):
             if kind == "same":
@@ -940,16 +977,90 @@ def predicates(ctx: Ctx) -> None:
         ctx.stats.case({"stream": "predicate-corpus", "name": name}, True)
         if r:
             ctx.fail(r[0], f"[{name}] {r[1]}", {"spec": spec.as_dict(), "ops": _ops_json(ops), "exact": True, **r[2]})
+    atomic_copies(ctx)
     n = ctx.scale(25, 150) * (4 if getattr(ctx, "deep_search", False) else 1)
     for i in range(n):
         spec = rng.choice(dyadic_specs())
         ops = gen_stream(spec, rng, ctx.scale(18, 40))
-        r = check_stream(spec, ops, True)
+        shared = None
+        if i % 3 == 2:
+            # one similarity object used for two landscapes with different boxes, one after the other
+            first = spec.other_box(rng)
+            shared = first.make()[0]
+            r0 = check_stream(first, gen_stream(first, rng, 8), True, sim=shared)
+            if r0:
+                ctx.fail(r0[0], r0[1], {"spec": first.as_dict(), "exact": True, **r0[2]})
+                continue
+        r = check_stream(spec, ops, True, sim=shared)
+        if r and shared is not None:
+            ctx.stats.case({"stream": "predicate-dyadic-reused-similarity", "mode": spec.kind}, True)
+            ctx.fail(r[0] + ":reused-similarity-object", r[1] + " (similarity object previously used with the box "
+                     f"{first.bounds})", {"spec": spec.as_dict(), "first_box": first.bounds, "ops": _ops_json(ops),
+                                          "exact": True, **r[2]})
+            continue
         ctx.stats.case({"stream": "predicate-dyadic", "mode": spec.kind, "len": len(ops)}, True)
         if r:
             ops = _shrink(spec, ops, r[0], True)
             r2 = check_stream(spec, ops, True) or r
             ctx.fail(r[0], r2[1], {"spec": spec.as_dict(), "ops": _ops_json(ops), "exact": True, **r2[2]})
+
+
+def atomic_copies(ctx: Ctx) -> None:
+    """rotated / translated / like-atom-permuted copies of densely packed 18-30 atom clusters offered to
+    the real gate through the real MolecularSimilarity: each structure must be stored exactly once.  (For
+    clusters of this size the random restarts of the alignment cannot rescue a broken identity test; on
+    the unchanged tree the deterministic path recognises every such copy.)"""
+    from topsearch.data.coordinates import AtomicCoordinates
+    from topsearch.data.kinetic_transition_network import KineticTransitionNetwork
+    from topsearch.similarity.molecular_similarity import MolecularSimilarity
+    rng = ctx.rng
+
+    def ball(n, radius=3.0, sep=0.9):
+        pts = []
+        while len(pts) < n:
+            t = np.array([rng.uniform(-radius, radius) for _ in range(3)])
+            if np.linalg.norm(t) <= radius and all(np.linalg.norm(t - q) > sep for q in pts):
+                pts.append(t)
+        return np.array(pts)
+
+    def rot():
+        a = np.array([[rng.gauss(0, 1) for _ in range(3)] for _ in range(3)])
+        q, r = np.linalg.qr(a)
+        q = q * np.sign(np.diag(r))
+        if np.linalg.det(q) < 0:
+            q[:, 0] *= -1
+        return q
+    for _ in range(ctx.scale(6, 30)):
+        n = rng.choice([18, 24, 30])
+        labels = (["C", "C", "O"] * 10)[:n] if rng.random() < 0.5 else [rng.choice(["Au", "Ag"]) for _ in range(n)]
+        structures = [ball(n), ball(n)]
+        energies = [-101.25, -97.5]
+        sim = MolecularSimilarity(0.1, 0.05)
+        k = KineticTransitionNetwork()
+        coords = AtomicCoordinates(labels, structures[0].flatten().copy())
+        offers = []
+        for si in (0, 1, 0, 1, 0):
+            perm = list(range(n))
+            for sp in set(labels):
+                idx = [i for i in range(n) if labels[i] == sp]
+                sh = idx[:]; rng.shuffle(sh)
+                for a, b in zip(idx, sh):
+                    perm[a] = b
+            x = (structures[si][perm] @ rot().T + np.array([rng.uniform(-2, 2) for _ in range(3)])).flatten()
+            offers.append((si, x))
+        with np.errstate(all="ignore"):
+            import warnings
+            with warnings.catch_warnings():
+                warnings.simplefilter("ignore")
+                for si, x in offers:
+                    coords.position = x.copy()
+                    sim.test_new_minimum(k, coords, energies[si])
+        ctx.stats.case({"stream": "predicate-atomic-copies", "n": n}, True)
+        if k.n_minima != 2:
+            ctx.fail("atomic-copy-stored-again", f"{len(offers)} rotated/translated/like-atom-permuted copies of 2 "
+                     f"distinct {n}-atom structures were offered; {k.n_minima} minima are stored",
+                     {"labels": labels, "offers": [[si, x.tolist()] for si, x in offers]})
+            return
 
 
 def replay(ctx: Ctx, data: dict) -> bool:
